@@ -14,6 +14,8 @@ Static clauses:
             base64 Engine::decode, bech32::decode, str::split_once + parse::<u32>), and no text-to-integer parse uses another radix
   (forms)   S-DECLARED knows the insert-under-lookup loop and the argument map *collected* from a walk over find_params(..);
             in the latter the walk may drop what was not supplied but passes no truncating adaptor (S-ALLSUPPLIED)
+  S-ARGSWIN where `args` and `env` are merged (chain / extend) the explicit arguments come last: they win on a shared key
+  S-BOOL    a JSON number becomes a boolean only by equality with 0 / 1: no `!=` / ordering test on a value read out of a Number
 Not decided: that each decoder inverts its encoding (value-level); ENCODINGS decides which decoders are in use.
 """
 import re
@@ -441,9 +443,96 @@ def all_supplied(F, res):
         res.add([ok("S-ALLSUPPLIED", "tx3_resolver::trp::parse_resolve_request|every supplied entry reaches the lookup", where(F.fn("tx3_resolver::trp::parse_resolve_request")), "no filtering / truncating adaptor between request.args / request.env and the loop over the supplied entries")])
 
 
+def precedence(F, res):
+    """S-ARGSWIN: an explicit argument wins over an environment entry of the same key.  Where the two request fields are merged -
+    `env.chain(args)` feeding inserts (a later insert overwrites), or `merged = env; merged.extend(args)` (extend overwrites) -
+    the entries of `args` come last.  The reverse order silently replaces what the client passed by the environment's value.
+    Another way of merging is reported as not decided."""
+    from ..common import deep_bodies
+    PASS = ("std::iter::IntoIterator::into_iter", "std::iter::Iterator::flatten", "std::option::Option::<T>::unwrap_or_default", "std::option::Option::<T>::unwrap_or",
+            "std::option::Option::<T>::unwrap_or_else", "std::iter::Iterator::map", "std::option::Option::<T>::into_iter", "std::ops::Deref::deref", "std::ops::DerefMut::deref_mut")
+
+    def src(b, du, op):
+        out = set()
+        for o in mir.provenance(b, du, op, transparent_extra=PASS):
+            if o.kind == "arg":
+                for pr in o.proj:
+                    if pr in (".args", ".env"):
+                        out.add(pr[1:])
+        return out
+    key = "tx3_resolver::trp::parse_resolve_request|explicit arguments are merged after the environment"
+    seen = []
+    for b in deep_bodies(F, "tx3_resolver::trp::parse_resolve_request"):
+        du = mir.DefUse(b)
+        for bi, t in mir.calls(b):
+            c = t.get("callee") or ""
+            if c in ("std::iter::Iterator::chain", "std::iter::Extend::extend") and len(t["args"]) > 1:
+                first, second = src(b, du, t["args"][0]), src(b, du, t["args"][1])
+                if first and second and first != second:
+                    seen.append((b, t["line"], c.split("::")[-1], first, second))
+    if not seen:
+        res.add([assumption("S-ARGSWIN", key, where(F.fn("tx3_resolver::trp::parse_resolve_request")), "the way `args` and `env` are merged is not one of the recognised shapes (chain, extend): which of the two wins on a shared key is not decided")])
+        return
+    bad = [x for x in seen if x[3] == {"args"} and x[4] == {"env"}]
+    if bad:
+        b, line, how, _, _ = bad[0]
+        res.add([finding("S-ARGSWIN", key, where(b, line), "`%s` puts the environment's entries after the explicit arguments: for a key present in both, the value the client passed is silently replaced by the environment's" % how)])
+    else:
+        res.add([ok("S-ARGSWIN", key, where(seen[0][0], seen[0][1]), "%s(env, args): a later entry overwrites an earlier one, so the explicit argument wins" % seen[0][2])])
+
+
+NUM_READS = ("as_u64", "as_i64", "as_f64", "as_i128", "as_u128", "is_u64", "is_i64")
+
+
+def bools(F, res):
+    """S-BOOL: a JSON number becomes a boolean only by being *equal* to one of the two documented literals.  In the decoder of
+    Bool arguments (by role: the functions of the interop module that return `Result<bool, _>`, helpers inlined, closures
+    included) no inequality / ordering test (`!=`, `>`, `>=`, `<`, `<=`) is made on a value read out of a `serde_json::Number`
+    (`as_u64()` ..): such a test reads the number as a truth value, and every number other than 0 and 1 is then *accepted*
+    (as true or as false) where the property wants it rejected with an error."""
+    from ..common import deep_bodies
+    decs = [p for p, f in F.fns.items() if f["crate"] == "tx3_resolver" and p.startswith("tx3_resolver::interop::") and f["def_kind"] != "Closure"
+            and not f.get("derived") and f["locals"] and f["locals"][0].startswith("std::result::Result<bool,")]
+    res.count("Bool decoders", len(decs))
+    if not decs:
+        res.add([assumption("S-BOOL", "tx3_resolver::interop|Bool decoder", "crates/tx3-resolver/src/interop.rs", "no function of the interop module returns Result<bool, _>: the Bool decoder was not found by role (not decided)")])
+        return
+    for p in sorted(decs):
+        bodies = deep_bodies(F, p)
+        by_path = {b["path"]: b for b in bodies}
+        bad = []
+        for b in bodies:
+            du = mir.DefUse(b)
+            # closures handed to an Option adaptor whose receiver is a number read: their parameter is that number
+            num_param = False
+            for hb in bodies:
+                dh = None
+                for _, t2 in mir.calls(hb):
+                    if b["path"] in (t2.get("fnrefs") or ()) and (t2.get("callee") or "").startswith("std::option::Option::<T>::") and t2["args"]:
+                        dh = dh or mir.DefUse(hb)
+                        if any(o.kind == "call" and (o.callee or "").split("::")[-1] in NUM_READS and "Number" in (o.callee or "") for o in mir.provenance(hb, dh, t2["args"][0])):
+                            num_param = True
+            for bi, si, st in mir.stmts(b):
+                rv = st["rv"]
+                if rv["k"] != "binop" or rv["op"] not in ("Ne", "Gt", "Ge", "Lt", "Le"):
+                    continue
+                for side in (rv["a"], rv["b"]):
+                    for o in mir.provenance(b, du, side):
+                        if (o.kind == "call" and (o.callee or "").split("::")[-1] in NUM_READS and "Number" in (o.callee or "")) or \
+                                (num_param and o.kind == "arg" and o.local == 2 and b["def_kind"] == "Closure"):
+                            bad.append((b, st["line"], rv["op"]))
+        key = "%s|a number is a boolean only by equality with 0 / 1" % p
+        if bad:
+            b, line, op = bad[0]
+            res.add([finding("S-BOOL", key, where(b, line), "the Bool decoder tests the integer value of a JSON number with `%s`: the number is read as a truth value, so numbers other than 0 and 1 are accepted as booleans instead of being rejected with an error" % {"Ne": "!=", "Gt": ">", "Ge": ">=", "Lt": "<", "Le": "<="}[op])])
+        else:
+            res.add([ok("S-BOOL", key, where(F.fns[p]), "no inequality / ordering test on a value read out of a serde_json::Number")])
+
+
 def run(ctx):
     F = ctx.F
     res = Result("C16")
+    res.rule("S-BOOL", "a JSON number becomes a boolean only by equality with the documented literals, never through a truthiness test")
     res.rule("PANIC", "no undischarged panic site in the closure of the request-parsing entry points")
     res.rule("F-FIELDUSE", "every field of ResolveParams is consulted by parse_resolve_request")
     res.rule("S-DECLARED", "arguments are inserted only for declared keys and coerced with the declared type")
@@ -462,6 +551,9 @@ def run(ctx):
     res.rule("S-ALLSUPPLIED", "every entry supplied under args / env reaches the per-key lookup (no filtering or truncation on the way)")
     all_supplied(F, res)
     type_arms(F, res)
+    bools(F, res)
+    res.rule("S-ARGSWIN", "where args and env are merged, the explicit arguments come last (they win on a shared key)")
+    precedence(F, res)
     nofloat(F, res, cg, ROOTS + env_roots)
     encodings(F, res, cg)
     return res
